@@ -514,6 +514,8 @@ func (c *Collection) Update(key string, exp Exp, callback sgbucket.UpdateFunc) (
 		casOut, err = c.WriteCas(key, exp, cas, raw, opt)
 		if err == nil {
 			break
+		} else if errors.As(err, &missingError) && cas != 0 {
+			continue // what was read has been purged since: a stale read like any other, so retry
 		} else if _, ok := err.(sgbucket.CasMismatchErr); !ok {
 			return 0, err // fatal error
 		}
